@@ -3,7 +3,7 @@
 import json, os
 
 CLAIMED = {
- "C01": ("constant folding of the KMS envelope serializer's and parser's size guards at boundary DEK lengths and comparison of the verdicts; constant census of IV/tag sizes; integer-width rule for the associated-data bit length; associated-data length suffix helpers folded to constant bytes",
+ "C01": ("constant folding of the KMS envelope serializer's and parser's size guards at boundary DEK lengths and comparison of the verdicts; constant census of IV/tag sizes; integer-width rule for the associated-data bit length; associated-data length suffix helpers folded to constant bytes; 64-bit width of every length block written in aead/subtle and internal/aead",
          "C01 as stated (Decrypt(Encrypt(p)) = p and byte-level interoperability with independent implementations of the standard algorithms) quantifies over cipher arithmetic and is NOT decided by this check. Decided are three structural necessary conditions only: the KMS envelope serializer and parser accept exactly the same encrypted-DEK lengths (0, 1, 2, 4095, 4096, 4097, 2^20 folded on both sides) with a 4-byte big-endian length field, so Decrypt never refuses an envelope Encrypt can produce on account of its DEK length; the IV/nonce/tag size constants of AES-GCM, AES-GCM-SIV, XAES-256-GCM, AES-CTR equal the standard values; the associated-data bit length of encrypt-then-MAC is widened to 64 bits before it is multiplied and never narrowed. The remaining code-shape clauses of C01 are decided under C02 (framing and tag checks of Decrypt), C19 (no writes into caller buffers) and C20 (fresh nonces).",
          "Trusted: go/ssa; constant propagation over the two envelope functions. Everything value-level (the ciphers themselves, round-trip equality for all inputs) is outside the claim.",
          "DESIGN.md §4 C01, §5"),
@@ -24,7 +24,7 @@ CLAIMED = {
          "Decides the structural clauses of C13 completely: the per-key predicate of hasSecrets folds to true for UNKNOWN/SYMMETRIC/ASYMMETRIC_PRIVATE and false for PUBLIC/REMOTE independent of any other key field, and is applied to every key; every reference to the unguarded handle constructor and every cleartext Writer.Write is guarded by hasSecrets(same value)==false, fed by a checked decrypt*, or lives in the two insecure packages; decrypt*/encrypt* call the caller's AEAD exactly once with the caller's associated data and release a keyset only on its success; keyset-info fields derive from metadata only.",
          "Trusted: go/ssa; confidentiality of the caller's AEAD; a key whose KeyMaterialType label contradicts its type URL is left to the per-type parsers (not decided here).",
          "DESIGN.md §4 C13"),
- "C05": ("census of every PrimitiveFromKey site and wrapper method; value-identity and dominance rules for entry/keyID/prefix pairing, primary selection, candidate selection and logged key IDs; constant folding of every key type's output-prefix function over variants x key IDs (incl. 0); prefix bytes folded to constants (start byte, big-endian key ID)",
+ "C05": ("census of every PrimitiveFromKey site and wrapper method; value-identity and dominance rules for entry/keyID/prefix pairing, primary selection, candidate selection and logged key IDs; constant folding of every key type's output-prefix function over variants x key IDs (incl. 0); prefix bytes folded to constants (start byte, big-endian key ID); search loops over the matching primitives left only on iterator exhaustion or acceptance",
          "Decides the selection rule of C05 structurally for all 16 factory sites and the wrappers they build: primitives come only from Enabled entries (iterator yield dominated by KeyStatus()==Enabled over 0..Len()-1) or Handle.Primary(); key ID, output prefix, adapter prefix and map key stored with a primitive are computed from that same entry; the primary slot is assigned only under entry.IsPrimary(); accepting operations are tried only on candidates returned by PrimitivesMatchingPrefix(input) whose lookup uses exactly the 5 leading bytes under a length guard plus the prefix-less bucket; every logged key ID is read from the pair whose operation succeeded. No key ID is compared with the constant 0 (0 is a legal ID, not a sentinel). Behaviour of the wrapped primitives and rotation histories are not decided (C11 covers the manager).",
          "Trusted: go/ssa incl. range-over-func lowering; idioms recognised are listed in checker/rules/c05.go.",
          "DESIGN.md §4 C05"),
@@ -56,7 +56,7 @@ CLAIMED = {
          "Decides the structural clauses of C07 (NOT chunking independence, which quantifies over call histories): the stream writer emits its whole buffer (segments are the internal buffer from offset 0, or caller memory only where the buffer is known empty); no Read on an underlying reader has its count discarded; the replaying wrapper of the keyset-level reader records everything it reads on every return path; segment decrypters succeed only under a passed tag check for every segment length; Reader.Read releases only authenticated plaintext; no underlying I/O error is dropped (16 call sites); segment nonces are prefix||be32(counter)||last with the 2^32-1 limit, own counters incremented on every emitting path, last=false/true/at-EOF; Write after Close fails and Close is idempotent; the keyset-level reader rewinds before each next candidate and fails when none matches.",
          "Trusted: go/ssa; stdlib Open/hmac.Equal; io.ReadFull EOF conventions.",
          "DESIGN.md §4 C07"),
- "C12": ("constant folding of every enum table pair (serialize∘parse inverse on all enum constants); shape rules for the keyset<->entries loops; argument-flow rules for ID requirements, type URL constants, optional sub-message presence; constant-field census; accessor-name/field-name agreement of serializers; ID-requirement flow through the 29 key creators; ParseKey provenance of entry keys; census that every scalar getter of Parameters is read by the parameters serializer; nil-test of the keyset material before cleartext writes; RSA CRT padding table",
+ "C12": ("constant folding of every enum table pair (serialize∘parse inverse on all enum constants); shape rules for the keyset<->entries loops; argument-flow rules for ID requirements, type URL constants, optional sub-message presence; constant-field census; accessor-name/field-name agreement of serializers; ID-requirement flow through the 29 key creators; ParseKey provenance of entry keys; census that every scalar getter of Parameters is read by the parameters serializer; nil-test of the keyset material before cleartext writes; RSA CRT padding table; injectivity and name agreement of the 49 enum-to-name tables folded on every constant",
          "Decides the structural conditions C12 rests on: for every pair of enum table functions A->(B,error)/B->(A,error) (found by type in 30+ packages) parse(serialize(a))=a on every constant and unknown values are errors; keyset<->entries conversions and Public() map every entry in a complete same-index loop with the same ID/status/primary (RAW => ID requirement 0); parsers hand keySerialization.IDRequirement() on and serializers hand key.IDRequirement() to NewKeySerialization (or insist on RAW); type URLs are the package constants on both sides; optional custom kid presence by nil test; no serializer writes a constant into a field the parser reads back, none copies a proto field from a differently named field of another message, no key ID is compared with 0, and a constructor whose parser canonicalises a big integer stores the canonical form. Byte-identical re-serialization and Equal semantics are not decided.",
          "Trusted: go/ssa; constant propagation over pure table functions; protobuf library.",
          "DESIGN.md §4 C12"),
